@@ -1120,11 +1120,16 @@ pub fn gen_corpus_with(seed: u64, n_fam: usize, q_per_fam: usize, adv: bool) -> 
         };
         fam.push(push(&base, &mut contents));
         let n_pert = 1 + rng.below(2);
+        let mut pert_kinds: Vec<usize> = vec![];
         for _ in 0..n_pert {
             let mut pv = if special && rng.chance(2, 3) { base.clone() } else { gen::perturb_leaf(&mut rng, &base) };
             if special && pv == base {
-                // differ in exactly one of the top-level members that root-dependent atoms read
-                match rng.below(4) {
+                // differ in exactly one of the top-level members that root-dependent atoms read; the
+                // special families take the four members in turn, so that a corpus of a few families
+                // has every one of them (the draw only decides the order of the others)
+                let kind = if pert_kinds.is_empty() { (f / 2) % 4 } else { rng.below(4) };
+                pert_kinds.push(kind);
+                match kind {
                     0 => pv["flag"] = json!(!base["flag"].as_bool().unwrap_or(false)),
                     1 => pv["lim"] = json!(base["lim"].as_i64().unwrap_or(0) + 1 + rng.below(2) as i64),
                     2 => {
@@ -1193,6 +1198,28 @@ pub fn gen_corpus_with(seed: u64, n_fam: usize, q_per_fam: usize, adv: bool) -> 
             q_other_family.push(qrng.below(n_fam));
         }
         if special {
+            // anchors: for every root member this family's documents differ in, one query whose result
+            // depends on that member and on nothing else of the root (so the corpus never lacks the
+            // pair "documents that differ in $.re" + "a query that reads $.re", whatever the draws were)
+            for kind in &pert_kinds {
+                let anchors: Vec<String> = match kind {
+                    0 => vec!["$.elems[?$.flag == true]".into()],
+                    1 => vec!["$.long[?@ > $.lim]".into()],
+                    2 => vec!["$.elems[?match(@, $.re)]".into(), "$.elems[?search(@, $.re)]".into(), "$.elems[*][?search(@, $.re)]".into()],
+                    _ => vec!["$.elems[?length($.list) == 3]".into()],
+                };
+                for q in anchors {
+                    if !queries.contains(&q) {
+                        queries.push(q);
+                        fq.push(queries.len() - 1);
+                        q_other_family.push(f);
+                    } else if let Some(qi) = queries.iter().position(|x| *x == q) {
+                        if !fq.contains(&qi) {
+                            fq.push(qi);
+                        }
+                    }
+                }
+            }
             // pattern pairs of equal length and equal h*31+c hash, over strings that tell them apart
             let f0 = if qrng.chance(1, 2) { "match" } else { "search" };
             let (pa, pb) = if qrng.chance(1, 2) { ("Aa", "BB") } else { ("AaBB", "BBAa") };
@@ -1922,7 +1949,7 @@ pub struct TierCfg {
 pub fn tier(name: &str) -> TierCfg {
     match name {
         "thorough" => TierCfg { name: "thorough", families: 48, q_per_fam: 14, sweep_families: 1_000_000, runs: 400_000, determinism_reruns: 5_000, wall_budget_s: 900.0 },
-        _ => TierCfg { name: "quick", families: 16, q_per_fam: 8, sweep_families: 20_000, runs: 8_000, determinism_reruns: 250, wall_budget_s: 40.0 },
+        _ => TierCfg { name: "quick", families: 16, q_per_fam: 8, sweep_families: 20_000, runs: 8_000, determinism_reruns: 250, wall_budget_s: 75.0 },
     }
 }
 
@@ -2060,7 +2087,10 @@ pub fn drive(tier_name: &str, seed: u64, workers: usize) -> i32 {
     let mut wall_runs = 0.0f64;
 
     while done < runs_target && cold_disagreements.is_empty() {
-        if t0.elapsed().as_secs_f64() > t.wall_budget_s && done > 0 {
+        // time lost waiting for stalled runs (a client blocked inside the system under test while another
+        // held the baton: 20 s each, a few at most before the batch turns atomic) is not charged
+        let stall_allowance = if STALLED_RUNS.load(std::sync::atomic::Ordering::Relaxed) > 0 { 45.0 } else { 0.0 };
+        if t0.elapsed().as_secs_f64() > t.wall_budget_s + stall_allowance && done > 0 {
             break;
         }
         let n = batch.min(runs_target - done);
